@@ -1,13 +1,23 @@
 """Programs and observation streams: conversion between TLC output, harness input and harness output."""
 import json, re
 
+class Hist(list):
+    """A predicted stream (list of records) that also carries the monitors' verdict on it: viol = [[property, reason], ...]."""
+    viol = ()
+
 def parse_replay_lines(text):
     """Yield histories (lists of records) from TLC output containing  <<"REPLAY", "<json>">>  lines."""
     for line in text.splitlines():
         if not line.startswith('<<"REPLAY", "'):
             continue
         body = line[len('<<"REPLAY", '):-2]          # a TLA+ string literal: "..." with \" and \\ escapes
-        yield json.loads(json.loads(body))
+        obj = json.loads(json.loads(body))
+        if isinstance(obj, dict):
+            h = Hist(obj["hist"])
+            h.viol = [tuple(v) for v in obj.get("viol", [])]
+            yield h
+        else:
+            yield Hist(obj)
 
 def program_of(hist):
     """Recover {cfg, steps, scripts} from a history (model-generated or recorded)."""
